@@ -223,6 +223,11 @@ Step(m, order) ==
        \cup (IF ~p1.removed /\ len > 1 /\ Len(p1.L) = len /\ p1.L[len].start <= EndTime(L[len - 1]) /\ p1.L[len].res.id = 0
                 /\ ~SlightlyOv(L[len - 1], p1.L[len].start) THEN {"merge-skipped-not-all-queued"} ELSE {})
        \cup (IF p1.removed /\ p1.bl = {} /\ p1.q # <<>> THEN {"flush-after-merge-send4"} ELSE {})
+       \* places where the marking decides the final table: the mark adds a lifecycle that is not marked yet
+       \cup (IF p1.removed /\ p1.bl = {} /\ p1.q # <<>> /\ p2.mark # toRefresh THEN {"send4-marks-unmarked-lifecycle"} ELSE {})
+       \cup (IF p1.removed /\ p1.bl = {} /\ (\E i \in 1..Len(p1.q) : p1.q[i].ecu # m.ecu /\ p1.q[i].lc \notin toRefresh)
+             THEN {"send4-marks-unmarked-lifecycle-of-other-ecu"} ELSE {})
+       \cup (IF p3.bl = {} /\ cur.lc \notin p3.mark THEN {"direct-marks-unmarked-lifecycle"} ELSE {})
        \cup (IF p3.bl # p1.bl THEN {"confirmed"} ELSE {})
        \cup (IF Len(p3.out) > Len(p2.out) THEN {"release-after-confirm-send1"} ELSE {})
        \cup (IF p3.mark # p2.mark THEN {"release-other-lifecycle-send2"} ELSE {})
@@ -261,6 +266,8 @@ Finish ==
      IN /\ delivered' = f.out /\ published' = pub2 /\ toRefresh' = {}
   /\ bufMsgs' = <<>> /\ bufLcs' = {} /\ pendingEmpty' = {} /\ done' = TRUE
   /\ paths' = paths \cup (IF bufLcs # {} THEN {"final-publish"} ELSE {}) \cup (IF bufMsgs # <<>> THEN {"final-flush"} ELSE {})
+                     \cup (IF \E i \in 1..Len(bufMsgs) : bufMsgs[i].lc \notin toRefresh /\ bufMsgs[i].lc \notin bufLcs
+                           THEN {"final-flush-marks-unmarked-published-lifecycle"} ELSE {})
   /\ UNCHANGED <<inputs, n, rxNow, ecuLcs, nextCheck, nextId, panic, nextIdx, lastRegular>>
 
 Msgs == {m \in [ecu : Ecus, rx : {rxNow + d : d \in RxDeltas}, ts : TsVals, kind : Kinds, ix : {nextIdx + d - 1 : d \in IdxDeltas}] :
@@ -302,4 +309,13 @@ PubList == {[id |-> i, ecu |-> published[i].ecu, nr |-> published[i].nr, start |
              end |-> published[i].end, res |-> published[i].res] : i \in DOMAIN published}
 EmitInv == done => PrintT(<<"SCN", ToJson([inputs |-> inputs, delivered |-> delivered, pub |-> PubList, panic |-> panic,
                                            c05 |-> C05, c06 |-> C06, c07 |-> C07, paths |-> paths])>>)
+
+\* deep sampling (tlc -simulate): emit only behaviours that take one of the rare paths a bounded-exhaustive config cannot reach
+RareTags == {"send4-marks-unmarked-lifecycle-of-other-ecu", "send4-marks-unmarked-lifecycle",
+             "final-flush-marks-unmarked-published-lifecycle", "merge-confirmed-into-buffered-prev",
+             "merge-confirmed-into-confirmed-prev", "merge-skipped-not-all-queued", "release-other-lifecycle-send2",
+             "upd-absorb-unresume", "upd-new-resume", "upd-ignore-timestamp", "regular-refresh"}
+EmitRare == (done /\ paths \cap RareTags # {}) =>
+              PrintT(<<"SCN", ToJson([inputs |-> inputs, delivered |-> delivered, pub |-> PubList, panic |-> panic,
+                                      c05 |-> C05, c06 |-> C06, c07 |-> C07, paths |-> paths])>>)
 =============================================================================
